@@ -12,6 +12,7 @@ import (
 	"encoding/json"
 	"fmt"
 	"math"
+	"regexp"
 	"strconv"
 	"strings"
 
@@ -160,6 +161,12 @@ func readTicker(dec *json.Decoder) (int, error) {
 // only by C20's oracle to classify such inputs as don't-care; single-threaded.
 var lenientMode bool
 
+// addrValueRE matches the raw spelling of an address value.
+var addrValueRE = regexp.MustCompile(`"address"\s*:\s*"((?:[^"\\]|\\.)*)"`)
+
+// metaBackslashes counts the backslashes inside metadata values of the text being parsed.
+var metaBackslashes int
+
 // LenientParseBatch is StrictParseBatch with lenientMode on.
 func LenientParseBatch(content []byte) ([]PTx, error) {
 	lenientMode = true
@@ -178,6 +185,7 @@ var zeroKeyAddress = func() [32]byte { return [32]byte(factom.FsAddress{}.FAAddr
 // summing to the input) or "conversion":"<ticker>" (+ optional "metadata"),
 // one input address for the whole batch, input amounts within int64.
 func StrictParseBatch(content []byte) ([]PTx, error) {
+	metaBackslashes = 0
 	dec := json.NewDecoder(bytes.NewReader(content))
 	dec.UseNumber()
 	if err := expectDelim(dec, '{'); err != nil {
@@ -196,7 +204,9 @@ func StrictParseBatch(content []byte) ([]PTx, error) {
 			version, haveV = v, true
 		case "metadata":
 			var raw json.RawMessage
-			return dec.Decode(&raw)
+			err := dec.Decode(&raw)
+			metaBackslashes += bytes.Count(raw, []byte{92})
+			return err
 		case "transactions":
 			haveT = true
 			if err := expectDelim(dec, '['); err != nil {
@@ -229,6 +239,20 @@ func StrictParseBatch(content []byte) ([]PTx, error) {
 		if t.From != txs[0].From {
 			return nil, strictErr("more than one input address")
 		}
+	}
+	// canonical form spells keys, tickers and addresses literally: an escape sequence anywhere
+	// outside the free-form metadata values is another spelling of the same string (strict and lenient)
+	allowed := metaBackslashes
+	if lenientMode {
+		// pegnetd decodes address strings with encoding/json, so an escaped character inside an
+		// address is accepted today; the property's list of non-canonical features does not name
+		// it: a labelled don't-care like key case, not a violation
+		for _, m := range addrValueRE.FindAllSubmatch(content, -1) {
+			allowed += bytes.Count(m[1], []byte{92})
+		}
+	}
+	if bytes.Count(content, []byte{92}) != allowed {
+		return nil, strictErr("escape sequence outside metadata")
 	}
 	return txs, nil
 }
@@ -306,7 +330,9 @@ func strictTx(dec *json.Decoder) (PTx, error) {
 			return err
 		case "metadata":
 			var raw json.RawMessage
-			return dec.Decode(&raw)
+			err := dec.Decode(&raw)
+			metaBackslashes += bytes.Count(raw, []byte{92})
+			return err
 		}
 		return nil
 	})
